@@ -17,6 +17,10 @@ pub struct PlanTask {
     pub options: String,
     /// does the host hand the pass a comments store
     pub comments: bool,
+    /// the host parses the file as a Script, not a Module (swc's `isModule: false`, or "unknown" for a
+    /// file without import/export) and hands the pass a `Program::Script`
+    #[serde(default, skip_serializing_if = "std::ops::Not::not")]
+    pub script: bool,
     /// fault: the yield hook panics at this step (1-based) of this task
     #[serde(default, skip_serializing_if = "Option::is_none")]
     pub crash_at: Option<u32>,
@@ -29,7 +33,7 @@ pub struct PlanTask {
 
 impl PlanTask {
     pub fn key(&self) -> String {
-        format!("{}|{}|{}", self.name, self.opt_name, if self.comments { "c" } else { "-" })
+        format!("{}|{}|{}{}", self.name, self.opt_name, if self.comments { "c" } else { "-" }, if self.script { "|script" } else { "" })
     }
     pub fn fault_planned(&self) -> bool {
         self.crash_at.is_some() || self.emitter_crash_at.is_some()
